@@ -32,7 +32,8 @@ Inductive op :=
 | OpGetInput
 | OpGetCaret
 | OpGetStatus
-| OpSetOption (name : bytes) (v : bool).
+| OpSetOption (name : bytes) (v : bool)
+| OpTick (ms : N).   (* the harness advances the virtual steady clock (read by ascii_composer only) *)
 
 (** RimeMenu as filled by RimeGetContext *)
 Record menu_obs := mkMenuObs {
@@ -68,7 +69,8 @@ Variable cfg : config.
 Variable translate : bytes -> seginfo -> list cand.
 
 Definition init_state : state :=
-  mkSt (mkCtx [] 0 (mkSegm [] []) [(opt_auto_commit, negb (cf_fluid cfg))] None None) [] [] [] [] 0%Z.
+  mkSt (mkCtx [] 0 (mkSegm [] []) [(opt_auto_commit, negb (cf_fluid cfg))] None None false) [] [] [] [] 0%Z
+       (mkAc false false false 0%N) 0%N.
 
 (** RimeGetContext's menu part *)
 Definition menu_view (c : context) : option menu_obs * bool :=
@@ -164,10 +166,12 @@ Definition exec (s : state) (o : op) : state * ret :=
   | OpGetCommit =>
     match st_commit s with
     | [] => (s, RCommit None)
-    | t => (mkSt (st_ctx s) (st_nav_input s) (st_spans s) [] (st_odd s) (st_kb_last s), RCommit (Some t))
+    | t => (mkSt (st_ctx s) (st_nav_input s) (st_spans s) [] (st_odd s) (st_kb_last s) (st_ac s) (st_clock s), RCommit (Some t))
     end
   | OpGetContext | OpGetInput | OpGetCaret | OpGetStatus => (s, RNone)
   | OpSetOption name v => (st_with_ctx s (set_option cfg translate (st_ctx s) name v), RNone)
+  | OpTick ms =>
+    (mkSt (st_ctx s) (st_nav_input s) (st_spans s) (st_commit s) (st_odd s) (st_kb_last s) (st_ac s) (st_clock s + ms)%N, RNone)
   end.
 
 Definition step (s : state) (o : op) : state * obs :=
